@@ -441,6 +441,7 @@ fn task_json(t: &Arc<Task>) -> Value {
             None => json!("nil"),
         },
         "data": Value::from(t.data()),
+        "opts": Value::from(t.node().content.options()),
         "hooks": hooks,
         "start_time": t.start_time(),
         "end_time": t.end_time(),
